@@ -20,12 +20,12 @@ TRANSPARENT = {
     "sorted", "list", "tuple", "enumerate", "zip", "reversed", "iter",
     "frozenset", "set", "dict", "constantdict", "_verify_is_array", "cast",
     "not_none", "FrozenOrderedSet", "OrderedSet", "chain", "next", "map",
-    "filter", "Map", "deepcopy", "copy", "zip_longest", "unique",
+    "filter", "Map", "deepcopy", "copy", "zip_longest", "unique", "id", "hash",
 }
 VIEW_METHODS = {"values", "items", "keys", "get", "copy", "union",
                 "intersection", "difference", "__getitem__"}
 # results carry no path (pure scalars)
-SCALARISING = {"len", "isinstance", "id", "hash", "type", "str", "repr", "int",
+SCALARISING = {"len", "isinstance", "type", "str", "repr", "int",
                "bool", "float", "any", "all", "issubclass", "hasattr",
                "callable", "print", "range"}
 MUTATORS = {"append", "extend", "update", "pop", "popitem", "add", "remove",
@@ -180,6 +180,10 @@ class Flow:
     def expand_attr(self, base, attr, summ, depth, node=None):
         out = set()
         for (root, p, rf) in base:
+            if rf or root == "__mapper__":
+                # attribute of a recursion result: still "derived from rec(p)"
+                out.add((root, p, rf))
+                continue
             cls = self.class_of_path(root, p)
             if cls is not None and cls in self.m.classes:
                 ak = self.m.resolve_attr_kind(cls, attr)
@@ -318,6 +322,8 @@ class Flow:
     def bind(self, tgt, val, env):
         if isinstance(tgt, ast.Name):
             env[tgt.id] = frozenset(val)
+            if tgt.id in env.get("__fresh__", ()) and not env.get("__keepfresh__"):
+                env["__fresh__"] = env["__fresh__"] - {tgt.id}
         elif isinstance(tgt, (ast.Tuple, ast.List)):
             for e in tgt.elts:
                 self.bind(e, val, env)
@@ -373,9 +379,12 @@ class Flow:
             return frozenset()
         if isinstance(f, ast.Name) and f.id in TRANSPARENT:
             return allargs
-        if isinstance(f, ast.Name) and f.id == "getattr" and len(n.args) >= 2 \
-                and isinstance(n.args[1], ast.Constant):
-            return self.expand_attr(args[0], n.args[1].value, summ, depth, n)
+        if isinstance(f, ast.Name) and f.id == "getattr" and len(n.args) >= 2:
+            if isinstance(n.args[1], ast.Constant):
+                return self.expand_attr(args[0], n.args[1].value, summ, depth, n)
+            # reflective access: any attribute of the object
+            return frozenset((r, p if rf or (p and p[-1] == "*") else p + ("*",), rf)
+                             for (r, p, rf) in args[0])
         if isinstance(f, ast.Name) and f.id == "setattr" or (
                 isinstance(f, ast.Attribute) and f.attr == "__setattr__"):
             tgt = args[0] if args else frozenset()
@@ -393,6 +402,12 @@ class Flow:
             # self.attr.setdefault(K, ..) / .add(V) chains: key tracking
             ke = self._keyed_chain(n, env, summ, depth)
             if ke is not None:
+                return frozenset()
+            if f.attr in ("append", "add", "extend", "update", "insert") \
+                    and isinstance(f.value, ast.Name) \
+                    and f.value.id in env.get("__fresh__", ()):
+                # accumulation into a locally created container
+                env[f.value.id] = env.get(f.value.id, frozenset()) | allargs
                 return frozenset()
             if recv and f.attr in MUTATORS:
                 summ.muts.append(MutEvent("call:" + f.attr, recv, n,
@@ -556,6 +571,7 @@ class Flow:
                 if owner in self.m.classes else None
         env["__mappers__"] = {}
         env["__localfuncs__"] = {}
+        env["__fresh__"] = frozenset()
         ret = []
         self.block(fd.body, env, summ, depth, ret)
         self.stack.pop()
@@ -598,11 +614,13 @@ class Flow:
             self._note_mapper_assign(st, env, summ, depth)
             for t in st.targets:
                 self.assign_target(t, v, env, summ, depth, st)
+                self._note_fresh(t, st.value, env)
         elif isinstance(st, ast.AnnAssign):
             v = self.ev(st.value, env, summ, depth) if st.value else frozenset()
             if st.value is not None:
                 self._note_mapper_assign(st, env, summ, depth)
                 self.assign_target(st.target, v, env, summ, depth, st)
+                self._note_fresh(st.target, st.value, env)
         elif isinstance(st, ast.AugAssign):
             v = self.ev(st.value, env, summ, depth)
             if isinstance(st.target, ast.Name):
@@ -669,6 +687,18 @@ class Flow:
                 self.block(c.body, dict(env), summ, depth, ret)
         # Import/Pass/Global/Nonlocal/Break/Continue/ClassDef: no flow
 
+    def _note_fresh(self, tgt, value, env):
+        fresh = False
+        if isinstance(value, (ast.List, ast.Set, ast.Dict, ast.ListComp,
+                              ast.SetComp, ast.DictComp)):
+            fresh = True
+        elif isinstance(value, ast.Call) and isinstance(value.func, ast.Name) \
+                and value.func.id in ("list", "set", "dict", "OrderedSet",
+                                      "defaultdict", "deque"):
+            fresh = True
+        if fresh and isinstance(tgt, ast.Name):
+            env["__fresh__"] = frozenset(env.get("__fresh__", frozenset())) | {tgt.id}
+
     def _is_self_attr(self, t):
         """``self.x`` / ``self.x[...]`` / ``self.x.y``: the mapper's own state."""
         while isinstance(t, (ast.Attribute, ast.Subscript)):
@@ -703,6 +733,8 @@ class Flow:
             if isinstance(a, frozenset) or isinstance(b, frozenset):
                 env[k] = (a if isinstance(a, frozenset) else frozenset()) | \
                          (b if isinstance(b, frozenset) else frozenset())
+            elif k == "__fresh__":
+                env[k] = frozenset(a or ()) | frozenset(b or ())
             elif isinstance(a, dict) or isinstance(b, dict):
                 env[k] = {**(b if isinstance(b, dict) else {}),
                           **(a if isinstance(a, dict) else {})}
